@@ -614,7 +614,7 @@ Definition bytes_int (s : list Z) : option Z :=
 
 Definition slice (off len : nat) (l : list Z) : list Z := firstn len (skipn off l).
 
-Inductive stl_start := StartNone | StartTCP | StartTimecode (h m s f : Z).    (* program_start_tc *)
+Inductive stl_start := StartNone | StartTCP | StartTimecode (df : bool) (h m s f : Z).    (* program_start_tc; df = not in HH:MM:SS:FF form *)
 Inductive stl_rows := RowsNone | RowsMNR | RowsInt (n : Z).                   (* max_row_count *)
 Record stl_cfg := { cfg_start : stl_start; cfg_rows : stl_rows }.
 
@@ -678,7 +678,11 @@ Definition stl_header (cfg : stl_cfg) (gsi : list Z) : stl_hdr + outcome :=
           | Some (h, m, s, f) => inl (tc_frames fps h m s f * snd fps, fst fps)
           | None => inr (Internal AttributeErr)                                      (* except ValueError: ... self.gsi.tcp *)
           end
-      | StartTimecode h m s f => inl (tc_frames fps h m s f * snd fps, fst fps)
+      | StartTimecode df h m s f =>
+          (* SmpteTimeCode.parse: a time code that does not match the non-drop pattern switches a rate whose denominator is not 1001
+             to rate * 1000/1001 *)
+          let fps' := if df && negb (snd fps =? 1001) then (fst fps * 1000, snd fps * 1001) else fps in
+          inl (tc_frames fps' h m s f * snd fps', fst fps')
       end in
     match start with
     | inr o => inr o
